@@ -140,6 +140,7 @@ type ChanObj struct {
 	Buf    []Value
 	Closed bool
 	ET     types.Type
+	Shared bool       // reachable from the instance declared with vrt.Share
 	sendq  []*sendReq // blocked senders (unbuffered rendezvous)
 }
 
